@@ -369,12 +369,30 @@ func init() {
 			for i := range c13Wrappers {
 				us = append(us, core.Unit{Name: fmt.Sprintf("deep|%d", i), Weight: 0})
 			}
+			for i := range jsonOps {
+				us = append(us, core.Unit{Name: fmt.Sprintf("under2|%d", i), Weight: 1})
+			}
 			return us
 		},
 		Run: func(w *core.Worker, tier, unit string) {
 			do := func(doc string) { w.Do(core.Case{Kind: "doc", In: core.BStr(doc)}) }
 			p := strings.Split(unit, "|")
 			switch p[0] {
+			case "under2":
+				// every dangerous document as left / right child of every operator, that as left / right
+				// child of operator i: no (operator, position) pair may be a place Validate does not look at
+				var i int
+				fmt.Sscanf(p[1], "%d", &i)
+				for _, c := range c13DangerousCores() {
+					for _, inner := range jsonOps {
+						for _, mid := range []string{mkDoc(`"a"`, inner, c, ""), mkDoc(c, inner, `"b"`, ""), mkDoc(c, inner, "\x00missing", ""), mkDoc("\x00missing", inner, c, "")} {
+							do(mkDoc(mid, jsonOps[i], `"b"`, ""))
+							do(mkDoc(`"a"`, jsonOps[i], mid, ""))
+							do(mkDoc("\x00missing", jsonOps[i], mid, ""))
+							do(mkDoc(mid, jsonOps[i], "\x00missing", ""))
+						}
+					}
+				}
 			case "deep":
 				// every document that fails Validate and would make a printer or renderer panic if it
 				// were rendered anyway, buried under n levels of one wrapper: Validate must still see it
@@ -443,7 +461,7 @@ func init() {
 		Eval:   c13Eval,
 		Shrink: c13Shrink,
 		Rule: "BYTES over a JSON alphabet (punctuation, letters, digits and the schema's key words as single symbols) to length L; JSON(1): every document {left,operator,right,+extras} over 29 leaf values (27 + absent, both sides) x 22 operator names x (values ∪ 507 boundary objects); " +
-			"DEEP: every depth-1 document that fails Validate and would make an operation panic, buried under 1..1025 levels of seven wrappers (unary, binary left/right, list element, range bound, array); JSON(2): one child is every representative of a decoded shape signature (operator, dynamic types, string classes, render outcome; recomputed from the implementation on every run), the other every plain value and every coarse-signature representative; non-trivial = decodes and validates; distinct = distinct shape signatures of validated documents",
+			"UNDER2: each such document as left / right child of every operator below every operator; DEEP: every depth-1 document that fails Validate and would make an operation panic, buried under 1..1025 levels of seven wrappers (unary, binary left/right, list element, range bound, array); JSON(2): one child is every representative of a decoded shape signature (operator, dynamic types, string classes, render outcome; recomputed from the implementation on every run), the other every plain value and every coarse-signature representative; non-trivial = decodes and validates; distinct = distinct shape signatures of validated documents",
 		Assumptions: []string{"depth-2 children are abstracted to shape signatures (operator, dynamic types, string classes the code branches on); depth 1 is exhaustive without abstraction"},
 		Bounds: func(tier string) map[string]any {
 			all, ok := c13Reps()
